@@ -11,10 +11,13 @@ SNAP=$(mktemp -d /tmp/fvc-snap.XXXXXX)
 mkdir -p "$SNAP/repo" "$SNAP/spec"; cp /repo/*.go /repo/go.mod /repo/go.sum "$SNAP/repo/"; cp "$V"/spec/* "$SNAP/spec/"; cp "$V/bin/fvc" "$SNAP/fvc"
 export TRY_SRC="$SNAP/repo" TRY_SPEC="$SNAP/spec" TRY_FVC="$SNAP/fvc"
 trap 'rm -rf "$SNAP"' EXIT
+# obligations that fail on the unchanged snapshot (the known findings of known_findings.json) are not alarms
+base=$(FVC_REPO="$SNAP/repo" FVC_VERIF="$SNAP/verif" FVC_SPEC="$SNAP/spec" FVC_SCRATCH="$SNAP/scratch" "$SNAP/fvc" all 2>&1 | grep -E '^  \S+#' | awk '{print $1}' | sort -u)
+[ -n "$base" ] && echo "BENIGN baseline (unchanged tree) fails: $base"
 for f in "$V"/selftest/benign/*${pat}*.diff; do
   c=$(basename "$f" .diff)
   out=$("$V/tools/try.sh" "$f" all 2>&1)
-  fails=$(echo "$out" | grep -E '^  \S+#' | awk '{print $1}' | sort -u | head -4 | tr '\n' ' ')
+  fails=$(echo "$out" | grep -E '^  \S+#' | awk '{print $1}' | sort -u | grep -vxF "${base:-@none@}" | head -4 | tr '\n' ' ')
   eng=$(echo "$out" | grep -E '^   ! [^n]' | head -2 | tr '\n' ' ')
   if [ -n "$fails$eng" ]; then echo "BENIGN $c: FALSE ALARM: $fails $eng"; rc=1; else echo "BENIGN $c: quiet ($(echo "$out" | tail -1))"; fi
 done
